@@ -85,6 +85,7 @@ def classify_edge(h, edge):
                     for aa in o.args:
                         if base_local(h.du, aa) in h.buf_locals: saw_buf = True
                         for k2, o2 in sl.origins(aa):
+                            if k2 == "call" and o2.callee.name in ("new", "with_capacity") and o2.dest.l in h.buf_locals: saw_buf = True
                             if k2 == "call" and o2.callee.name in ("get", "last", "index"):
                                 for a3 in o2.args:
                                     if base_local(h.du, a3) in h.buf_locals: saw_buf = True
